@@ -7,7 +7,7 @@ CONSTANTS
   MaxCrashes = 1
   FlagSet = {"S", "T"}
   AppendFlags = {{}, {"T"}}
-  Dev = {"CopyMetadataOnly", "MoveKeepsSourceRecord", "MkdirNotAtomic", "TempInSystemTmp"}
+  Dev = {"MoveKeepsSourceRecord"}
   Tol = {}
   OtherFs = FALSE
   Virgin = FALSE
